@@ -81,6 +81,19 @@ HERE = os.path.dirname(os.path.abspath(__file__))
 FALLBACK = os.path.join(HERE, 'gen_fallback.json')
 
 
+# every source function whose control flow is regenerated on every run (tools/coverage_map.py reads this)
+TRANSLATED = [
+    'pyramid/util.py:hide_attrs',
+    'pyramid/util.py:reraise',
+    'pyramid/view.py:ViewMethodsMixin.invoke_exception_view',
+    'pyramid/tweens.py:_error_handler',
+    'pyramid/tweens.py:excview_tween_factory',
+    'pyramid/tweens.py:excview_tween_factory.excview_tween',
+    'pyramid/httpexceptions.py:default_exceptionresponse_view',
+    'pyramid/config/views.py:isexception',
+]
+
+
 class Problem(Exception):
     pass
 
